@@ -145,7 +145,7 @@ def gen_ctype_headers(rng):
 
 
 def gen_case(rng):
-    kind = rng.weighted([("post", 4), ("options", 5), ("ws", 5)])
+    kind = rng.weighted([("post", 4), ("options", 5), ("ws", 5), ("head", 0.6), ("other", 0.8)])
     csrf = rng.random() < 0.8
     allow_cfg = rng.choice(ALLOW_CFGS)
     # (tornado answers 400 to a WebSocket upgrade over HTTP/1.0: never generated)
@@ -169,8 +169,11 @@ def gen_case(rng):
             headers.append(["Content-Type", v])
         body = rng.random() < 0.85
     rng.shuffle(headers)
-    return {"kind": kind, "csrf": csrf, "allow_cfg": allow_cfg, "headers": headers, "body": body,
+    case = {"kind": kind, "csrf": csrf, "allow_cfg": allow_cfg, "headers": headers, "body": body,
             "version": version}
+    if kind == "other":
+        case["method"] = rng.choice(["GET", "PUT", "DELETE", "PATCH"])
+    return case
 
 
 # ----------------------------------------------------------------------------
@@ -213,15 +216,25 @@ def run_http_case(case):
     vid = f"v{_vid[0]}"
     lines = [f"{n}: {v}".encode("latin1") for n, v in case["headers"]] + [f"X-Verif-Id: {vid}".encode()]
     before = srv.core.n_calls()
+    probe_out, n_clients = {}, 0
     if case["kind"] == "post":
         st, h, body, extra = L.raw_request(srv.port, "POST", "/mopidy/rpc", lines,
                                            RPC_BODY if case["body"] else b"", version=case["version"])
     elif case["kind"] == "options":
         st, h, body, extra = L.raw_request(srv.port, "OPTIONS", "/mopidy/rpc", lines, version=case["version"])
+    elif case["kind"] == "head":
+        st, h, body, extra = L.raw_request(srv.port, "HEAD", "/mopidy/rpc", lines, version=case["version"])
+    elif case["kind"] == "other":
+        st, h, body, extra = L.raw_request(srv.port, case.get("method", "GET"), "/mopidy/rpc", lines,
+                                           version=case["version"])
     else:
+        n_clients = len(srv.handlers.WebSocketHandler.clients)
         st, h, body, extra = L.raw_request(srv.port, "GET", "/mopidy/ws", lines + L.ws_handshake_headers(),
                                            version=case["version"], after_upgrade=L.ws_text_frame(RPC_BODY),
-                                           timeout=2.0)
+                                           timeout=2.0,
+                                           probe=lambda: any(hd.request.headers.get("X-Verif-Id") == vid
+                                                             for hd in list(srv.handlers.WebSocketHandler.clients)),
+                                           probe_out=probe_out)
     seen = None
     t0 = time.time()
     while seen is None and time.time() - t0 < 1.0:
@@ -233,7 +246,13 @@ def run_http_case(case):
     # the wrapper runs synchronously inside the handler, before the response is written
     reached = srv.core.n_calls() > before
     ac = {k: v for k, v in h.items() if k.startswith("access-control-")}
+    # the four headers of set_extra_headers go together
+    ex = [h.get("x-mopidy-version") is not None, h.get("cache-control") == ["no-cache"],
+          h.get("accept") == ["application/json"], h.get("content-type") == ["application/json; utf-8"]]
     obs = {
+        "extra": all(ex), "extra_partial": any(ex) and not all(ex),
+        "registered": bool(probe_out.get("value", False)),
+        "acah_value": (ac.get("access-control-allow-headers") or [None])[0],
         "status": st,
         "acao": (ac.get("access-control-allow-origin") or [None])[0],
         "acao_n": len(ac.get("access-control-allow-origin", [])),
@@ -262,15 +281,15 @@ def model_request(case, obs):
     origin, host, ctype, wso = seen["Origin"], seen["Host"], seen["Content-Type"], seen["Sec-Websocket-Origin"]
     eff = origin if origin is not None else (wso if case["kind"] == "ws" else None)
     allow = sorted(SERVERS.get(case["csrf"], case["allow_cfg"]).config["http"]["allowed_origins"])
-    kind = {"post": "Post", "options": "Options", "ws": "WsHandshake"}[case["kind"]]
+    kind = {"post": "Post", "options": "Options", "ws": "WsHandshake", "head": "Head", "other": "OtherMethod"}[case["kind"]]
     return ("(mkReq %s %s %s %s %s %s %s %s %s)" % (
         kind, g_bool(case["csrf"]), g_list([g_str(a) for a in allow]), g_opt(origin, g_str), g_opt(wso, g_str),
         g_opt(host, g_str), g_opt(ctype, g_str), g_bool(case["body"]), g_bool(oracle_rejects(eff))))
 
 
 def observed_response(obs):
-    return "(mkResp %s %s %s %s)" % (g_z(obs["status"]), g_opt(obs["acao"], g_str), g_bool(obs["acah"]),
-                                     g_bool(obs["core"]))
+    return "(mkResp %s %s %s %s %s %s)" % (g_z(obs["status"]), g_opt(obs["acao"], g_str), g_bool(obs["acah"]),
+                                           g_bool(obs["core"]), g_bool(obs["extra"]), g_bool(obs["registered"]))
 
 
 # ----------------------------------------------------------------------------
@@ -316,8 +335,9 @@ def py_monitors(case, obs):
     st, core, granted = obs["status"], obs["core"], (obs["acao"] is not None or obs["acah"])
     if st is None:
         return [("T4_refused_is_inert", "no response")] if core else []
-    if st >= 400 and (core or granted):
-        bad.append(("T4_refused_is_inert", f"status {st} but core={core} cors={granted}"))
+    if st >= 400 and (core or granted or obs.get("registered") or obs.get("extra")):
+        bad.append(("T4_refused_is_inert", f"status {st} but core={core} cors={granted} "
+                                           f"ws-registered={obs.get('registered')} handler-headers={obs.get('extra')}"))
     if seen is None or st == 400:
         return bad
     origin, host, ctype, wso = seen["Origin"], seen["Host"], seen["Content-Type"], seen["Sec-Websocket-Origin"]
@@ -346,6 +366,8 @@ def py_monitors(case, obs):
             bad.append(("T5_protection_off_accepts_all", f"options answered {st}"))
         if kind == "ws" and (st != 101 or not core):
             bad.append(("T5_protection_off_accepts_all", f"handshake answered {st} core={core}"))
+        if kind == "head" and st != 200:
+            bad.append(("T5_protection_off_accepts_all", f"head answered {st}"))
     return bad
 
 
@@ -479,33 +501,45 @@ def check_origin_stage(chk):
 
 
 def config_stage(chk):
+    """corr:config - the text of http/allowed_origins through the real schema (List of
+    String(transformer=str.lower): decode, split, strip, decode again, strip, lower,
+    frozenset / ValueError) vs parse_allowed_origins."""
     rng = chk.rng
     pool = ["Allowed.Example", "allowed.example", "LOCALHOST:6680", "a", "A", "\xc0b.example", "\xe0B.example",
-            "x y", "MiXeD.Case:80", "\xd7\xdf", "null"]
-    rows = []
-    for i in range(200 if chk.tier == "quick" else 2000):
+            "x y", "MiXeD.Case:80", "\xd7\xdf", "null", "music.example:6680", "MUSIC.example", "[::1]:6680",
+            "a\\\\b", "\\t", "\\n", "\\\\", "\\", "x\\ty", " \\t ", "\x0b", "\xa0pad\xa0", "\x85", "q\\", "\\\\n",
+            "", " ", "ab\\nCD", "tab\there"]
+    texts = ["", " ", ",", "\n", "a", "A,B", "A\nB", "a,,b", "a\n\nb", " a , b ", "a\\nb", "a\\\\nb", "\\t", "x,\\t", "\\n",
+             "a,b\nc", "A ,\tB", "a\r\nb", "\xa0a\xa0,\x0bb", "a\\", "a\\,b"]
+    for _ in range(300 if chk.tier == "quick" else 4000):
         items = [rng.choice(pool) for _ in range(rng.randint(0, 4))]
-        sep = rng.choice([", ", ",", "\n", "\n   ", " ,\t"])
-        cfg = sep.join(items) + (rng.choice(["", "\n", " "]) if items else "")
-        if "\n" not in sep and "\n" in cfg:
-            cfg = cfg.strip("\n")
+        sep = rng.choice([", ", ",", "\n", "\n   ", " ,\t", "\\n", ",\n", " \xa0, ", "\r\n"])
+        texts.append(rng.choice(["", " ", "\n", "\t"]) + sep.join(items) + rng.choice(["", "\n", " ", ",", "\\n"]))
+    rows = []
+    for text in texts:
         try:
-            got = sorted(SERVERS.schema_allow(cfg))
+            got, raised = sorted(SERVERS.schema_allow(text)), False
+        except ValueError:
+            got, raised = [], True
         except Exception as e:  # noqa: BLE001
-            got = ["<" + type(e).__name__ + ">"]
-        rows.append((items, cfg, got))
-        chk.count(1, nontrivial_key=("cfg", tuple(items)) if any(x.lower() != x for x in items) else None)
+            got, raised = ["<" + type(e).__name__ + ">"], False
+        rows.append((text, got, raised))
+        chk.count(1, nontrivial_key=("cfg", text) if ("\\" in text or any(x.lower() != x for x in got) or raised or len(got) > 1) else None)
+        chk.dist("config:raises" if raised else f"config:entries={min(len(got), 3)}")
         for g in got:
             if g != g.lower():
                 chk.monitor_failure("allow_list_lowercased", {"monitor": "allow_list_lowercased"},
-                                    "configured allow-list entry kept in upper case", {"cfg": cfg, "got": got})
-    terms = [f"({g_list([g_str(x) for x in it])}, {g_list([g_str(x) for x in got])})" for it, _, got in rows]
-    ok_def = ("Definition cases_ty : Type := (list str * list str)%type.\n"
-              "Definition ok (c : cases_ty) : bool := let '(items, got) := c in\n"
-              "  forallb (fun x => mem_str x got) (config_allow items) && forallb (fun x => mem_str x (config_allow items)) got.\n")
+                                    "configured allow-list entry kept in upper case", {"cfg": text, "got": got})
+    terms = [f"({g_str(t)}, {g_list([g_str(x) for x in got])}, {g_bool(r)})" for t, got, r in rows]
+    ok_def = ("Definition cases_ty : Type := (str * list str * bool)%type.\n"
+              "Definition ok (c : cases_ty) : bool := let '(text, got, raised) := c in\n"
+              "  match parse_allowed_origins text with\n"
+              "  | Ok vs => negb raised && forallb (fun x => mem_str x got) vs && forallb (fun x => mem_str x vs) got\n"
+              "  | Raise ValueError => raised\n"
+              "  | _ => false end.\n")
     ok, bad = eval_shards(chk, "config", terms, ok_def)
     for i in bad[:10]:
-        chk.corr_failure("config", {"items": rows[i][0], "cfg": rows[i][1], "impl": rows[i][2]})
+        chk.corr_failure("config", {"cfg": rows[i][0], "impl": rows[i][1], "impl_raised": rows[i][2]})
     chk.obligation("corr:config", "correspondence", ok)
 
 
@@ -527,6 +561,10 @@ def http_stage(chk, cases):
             chk.monitor_failure(mon, mon_key(mon, case, obs), what, {"case": case, "observed": obs})
         if obs["acao_n"] > 1:
             chk.corr_failure("http", case, "more than one Access-Control-Allow-Origin header")
+        if obs["extra_partial"]:
+            chk.corr_failure("http", case, "only some of the set_extra_headers headers are present")
+        if obs["acah_value"] not in (None, "Content-Type"):
+            chk.corr_failure("http", case, f"Access-Control-Allow-Headers is {obs['acah_value']!r}")
         if obs["seen"] is None or obs["status"] == 400:
             # refused by tornado itself (malformed header block, unparsable multipart body):
             # no handler method ran; only T4 (refused => inert) applies
